@@ -9,17 +9,20 @@ from . import summaries_str  # registers str/char summaries
 _cache = {}
 
 
-def program(crates=("pest",), hooks=False):
+def program(crates=("pest",), hooks=False, features=()):
     """crates: tuple of workspace package names whose MIR is loaded (regenerated from the working tree)"""
-    key = (tuple(crates), hooks)
+    key = (tuple(crates), hooks, tuple(features))
     if key in _cache: return _cache[key]
     P = Program(REPO)
     srcdirs = {"pest": "pest/src", "pest_vm": "vm/src", "pest_meta": "meta/src", "pest_generator": "generator/src",
                "pest_grammars": "grammars/src"}
     for c in crates:
-        mir = dump.dump(c, hooks=hooks)
+        fe = [f for f in features if c in ("pest_vm", "pest_meta", "pest_generator")]
+        mir = dump.dump(c, hooks=hooks, features=fe or None)
         P.load(mir, c)
-        P.load_enums([os.path.join(REPO, srcdirs[c])])
+        P.load_enums([os.path.join(REPO, srcdirs[c])], features)
+    if "pest_vm" in crates and "pest_meta" not in crates:
+        P.load_enums([os.path.join(REPO, srcdirs["pest_meta"])], features)
     _cache[key] = P
     return P
 
